@@ -47,6 +47,7 @@ type Options struct {
 	URLBias    bool // prefer URL-carrying and code-carrying positions (C02)
 	CommentsOK bool
 	Weird      bool // include lexical oddities (CR in end tags, uppercase, odd whitespace)
+	Zones      bool // also generate the constructs of the known-deviation zones (flagged "zone:<id>")
 }
 
 // DefaultOptions for C01.
@@ -333,7 +334,11 @@ func (g *gen) item(b *strings.Builder, parent string, depth int) {
 			b.WriteString(g.action(g.field("str", "text:"+parent), true))
 		}
 	case k == 5:
-		if g.o.CommentsOK {
+		if g.o.CommentsOK && g.o.Zones && g.n(0, 3, "czone") == 0 {
+			// comment corner cases: ended early for a browser (abrupt closing, --!>) but not for the engine
+			b.WriteString("<!--" + g.pick("czbody", ">", "->", ">x<b>y</b>", "-><i>z</i>", "a--!>b<u>c</u>", "--!><p>", "a--!>") + "-->")
+			g.flag("zone:K-cmt")
+		} else if g.o.CommentsOK {
 			b.WriteString("<!--" + g.pick("cbody", commentBody...) + "-->")
 			g.flag("comment")
 		} else {
@@ -345,6 +350,8 @@ func (g *gen) item(b *strings.Builder, parent string, depth int) {
 		g.special(b)
 	case k == 10:
 		g.control(b, func(bb *strings.Builder) { g.content(bb, parent, depth+1) })
+	case k == 14 && g.o.Zones && g.n(0, 1, "zonepick") == 0:
+		g.zoneItem(b, parent)
 	case k == 14:
 		g.openByControl(b)
 	case k == 11:
@@ -410,6 +417,39 @@ func (g *gen) control(b *strings.Builder, body func(*strings.Builder)) {
 		}
 		b.WriteString("{{end}}")
 		g.flag("with")
+	}
+}
+
+// zoneItem writes one construct of a known-deviation zone.
+func (g *gen) zoneItem(b *strings.Builder, parent string) {
+	switch g.n(0, 3, "zone") {
+	case 0:
+		// title / textarea nested in an element that browsers tokenize as raw text but the engine does not model
+		outer := g.pick("rawouter", "iframe", "noscript", "xmp", "noembed", "noframes")
+		inner := g.pick("rawinner", "title", "textarea")
+		b.WriteString("<" + outer + "><" + inner + ">" + g.pick("rawtext", "a", "</"+outer+">", "<b>x", "x</"+outer+"><i>") + g.action(g.field("rcdata", "rcdata:"+inner), true) + "</" + inner + "></" + outer + ">")
+		g.flag("zone:K-rawnest")
+	case 1:
+		// bogus comments: '<' followed by '/', '!' or '?' and a non-letter; the engine rewrites the '<' to text
+		b.WriteString(g.pick("bogus", "</ x>", "<?php x ?>", "<!x>", "<!-x->", "</ x <b>y</b>>", "<?a <i>b</i>>", "<!DOCTYP x>", "</>") + g.pick("afterbogus", "", "t", "<u>v</u>"))
+		g.flag("zone:K-bogus")
+	case 2:
+		// a '<' (or '</', '<!', '<?') directly before an action: text for the engine, tag/bogus comment for a tokenizer
+		b.WriteString(g.pick("blt", "<", "</", "<!", "<?", "a<", "<!-") + g.action(g.field("str", "text:boundary-lt"), false) + g.pick("afterblt", ">", " x>", "", "->"))
+		g.flag("zone:boundary-lt")
+	default:
+		// a byte that is not HTML white space directly after the name of a special element
+		name := g.pick("tnelem", "textarea", "title", "script", "style")
+		fake := g.pick("tnfake", "\v", "\x00", "\x1f", ".", "\u00a0")
+		switch name {
+		case "textarea", "title":
+			b.WriteString("<" + name + fake + "x=\"1\">" + g.pick("rtext2", "<b>t</b>", "a") + g.action(g.field("rcdata", "rcdata:"+name), true) + "</" + name + ">")
+		case "script":
+			b.WriteString("<" + name + fake + "x>var a = 1;</" + name + ">")
+		default:
+			b.WriteString("<" + name + fake + "x>p{}</" + name + ">")
+		}
+		g.flag("zone:K-tagname")
 	}
 }
 
